@@ -1,12 +1,26 @@
 /*
- * h_mainq.c — C02 on the main queue: the main thread parks in dispatch_main(),
- * foreign client threads submit through every API; serial exclusion + FIFO oracle.
+ * h_mainq.c — C02 on the main queue: foreign client threads submit through every API;
+ * serial exclusion + FIFO oracle.
+ *   default mode: the main thread parks in dispatch_main() (the main queue becomes an ordinary
+ *                 serial queue drained by worker threads);
+ *   --mode=cf:    the main thread stays thread-bound and drains the main queue the way
+ *                 CoreFoundation's run loop does on Linux: it sleeps in poll() on the eventfd
+ *                 returned by _dispatch_get_main_queue_handle_4CF(), and on every wake-up reads
+ *                 the eventfd and calls _dispatch_main_queue_callback_4CF(). Nothing else drains
+ *                 the queue, so a lost wake-up strands items (stuck:mainq:*). A fraction of the
+ *                 items call the callback re-entrantly (a nested run loop): it must be a no-op.
  */
 #include "vf_common.h"
 #include "vf_items.h"
 #include <dispatch/dispatch.h>
 #include <dispatch/private.h>
 #include <sched.h>
+#include <poll.h>
+#include <sys/eventfd.h>
+
+static int g_cf;                       /* --mode=cf */
+static _Atomic uint64_t cf_wakeups, cf_callbacks_with_work, cf_nested_calls;
+static _Atomic uint64_t cf_main_runs;
 
 static char k_main_key, k_inner_key;
 typedef struct {
@@ -27,6 +41,8 @@ static void mq_body(void *ctx)
 	it->tid_start = vf_gettid();
 	it->start = vf_stamp();
 	if (atomic_fetch_add(&it->runs, 1)) vf_violation("C01:ran-twice", "main-queue item %u ran twice", it->id);
+	if (g_cf && !it->is_sync && it->tid_start != t->main_tid) atomic_fetch_add(&t->not_on_main, 1);
+	if (g_cf && it->tid_start == t->main_tid) atomic_fetch_add(&cf_main_runs, 1);
 	if (!vf_item_payload_ok(it)) vf_violation("C05:payload-not-visible", "main-queue item %u: payload not visible", it->id);
 	/* C18: the main queue is the bottom of the chain of every queue that targets it */
 	if (dispatch_get_specific(&k_main_key) != (void *)t) vf_violation("C18:get_specific:main-queue-at-the-bottom-of-the-chain:returns-NULL", "item on %s does not see the value set on the main queue", it->queue ? "a queue that targets the main queue" : "the main queue");
@@ -39,6 +55,12 @@ static void mq_body(void *ctx)
 	if (t->chain_hash != vf_hash64(VF_HASH_INIT ^ t->salt, c)) vf_violation("C05:chain-not-visible", "main queue: chained record inconsistent at item %u", it->id);
 	t->chain_ctr = c + 1; t->chain_hash = vf_hash64(VF_HASH_INIT ^ t->salt, c + 1);
 	if ((it->id % 7) == 0) vf_spin_ns(2000);
+	if (g_cf && (it->id % 97) == 0 && it->tid_start == t->main_tid) {
+		/* nested run loop inside a main-queue item: the callback must not drain re-entrantly (the
+		 * exclusion oracle sees any item it would run inside this one's interval) */
+		_dispatch_main_queue_callback_4CF(NULL);
+		atomic_fetch_add(&cf_nested_calls, 1);
+	}
 	vf_item_fill_result(it);
 	it->end = vf_stamp();
 	vf_progress();
@@ -103,6 +125,7 @@ static void *controller(void *arg)
 		vf_profile_t prof;
 		vf_perturb_draw(&r, &prof);
 		t->nclients = (int)vf_rnd_range(&r, 2, 8);
+		t->main_tid = getpid();   /* the main thread's tid */
 		t->ops = (int)((long)(prof.kind == VF_P_OFF ? 6000 : 1500) * vf_opts.scale / 100);
 		t->cap = t->nclients * t->ops;
 		t->qs[0] = dispatch_get_main_queue();
@@ -156,15 +179,25 @@ static void *controller(void *arg)
 			int k; for (k = 0; k < threads; k++) if (seen[k] == sel[i]->tid_start) break;
 			if (k == threads && threads < 64) seen[threads++] = sel[i]->tid_start;
 		}
+		if (g_cf) {
+			/* thread-bound main queue: everything except synchronous items handed to the caller runs on the main thread */
+			if (atomic_load(&t->not_on_main)) vf_violation("C02:main-queue:thread-bound-item-ran-off-the-main-thread", "%llu asynchronous items of the thread-bound main queue hierarchy ran on another thread", (unsigned long long)atomic_load(&t->not_on_main));
+			vf_count("mainq_cf_items", (uint64_t)m);
+		}
 		vf_count("mainq_items", (uint64_t)m);
 		vf_count("items", (uint64_t)m);
 		vf_count("ordered_pairs_checked", st.ordered_pairs);
 		vf_count("cross_thread_handoffs", st.cross_thread);
 		vf_emit("trial", "\"n\":1,\"sig\":\"mq%d-%d-%d-%d\",\"nontrivial\":%s,\"sample\":{\"trial\":%d,\"shape\":\"main-queue\",\"clients\":%d,\"items\":%d,\"threads_that_ran_items\":%d,\"perturb\":\"%s\"}",
-				t->nclients, prof.kind, vf_log2_bucket(st.cross_thread), threads, st.cross_thread ? "true" : "false", idx, t->nclients, m, threads, prof.desc);
+				t->nclients, prof.kind, vf_log2_bucket(st.cross_thread), threads, (st.cross_thread || g_cf) ? "true" : "false", idx, t->nclients, m, threads, prof.desc);
 		dispatch_queue_set_specific(t->qs[0], &k_main_key, NULL, NULL);
 		dispatch_release(t->qs[1]); dispatch_release(t->qs[2]);
 		free(sel); free(r1); free(r2); free(t->items);
+		if (g_cf && tr == vf_opts.trials - 1) {
+			vf_count("mainq_cf_wakeups", atomic_load(&cf_wakeups));
+			vf_count("mainq_cf_callbacks_with_work", atomic_load(&cf_callbacks_with_work));
+			vf_count("mainq_cf_nested_callback_calls", atomic_load(&cf_nested_calls));
+		}
 		/* t stays allocated: it is the value of a queue-specific key that late items may still compare with */
 	}
 	exit(vf_finish());
@@ -175,7 +208,24 @@ int main(int argc, char **argv)
 {
 	vf_init(argc, argv, "h_mainq");
 	pthread_t th;
+	g_cf = vf_opts.mode && !strcmp(vf_opts.mode, "cf");
+	if (!g_cf) {
+		pthread_create(&th, NULL, controller, NULL);
+		dispatch_main();
+		return 0;
+	}
+	int fd = _dispatch_get_main_queue_handle_4CF();
 	pthread_create(&th, NULL, controller, NULL);
-	dispatch_main();
+	for (;;) {
+		struct pollfd pfd = { .fd = fd, .events = POLLIN };
+		int n = poll(&pfd, 1, -1);
+		if (n < 0) continue;   /* EINTR */
+		eventfd_t v;
+		if (eventfd_read(fd, &v) != 0) continue;   /* EAGAIN: spurious */
+		atomic_fetch_add(&cf_wakeups, 1);
+		uint64_t before = atomic_load(&cf_main_runs);
+		_dispatch_main_queue_callback_4CF(NULL);
+		if (atomic_load(&cf_main_runs) != before) atomic_fetch_add(&cf_callbacks_with_work, 1);
+	}
 	return 0;
 }
